@@ -1,7 +1,5 @@
 package node
 
-import "github.com/freeconf/yang/meta"
-
 type MaxDepth struct {
 	MaxDepth int
 }
@@ -16,18 +14,23 @@ func (md MaxDepth) CheckContainerPreConstraints(r *ChildRequest) (bool, error) {
 func (md MaxDepth) checkPathLen(current *Path, base *Path) bool {
 	depth := 0
 	p := current
-	for p != nil && base != nil && p.Meta != base.Meta {
-		isListItem := meta.IsList(p.Meta) && p.Parent.Meta == p.Meta
-		if !isListItem {
-			// lists have 2 entries in a path, list node and list item node
-			depth++
-		}
+	for p != nil && base != nil && !isBasePath(p, base) {
+		// a list is one step of a path whether the step stands for the list or for one of its
+		// entries: the path of an entry hangs off the parent of the list, not off the list
+		depth++
 		if depth >= md.MaxDepth {
 			return false
 		}
 		p = p.Parent
 	}
 	return true
+}
+
+// isBasePath tells whether the walk up from a node has arrived where the read started. The levels of a
+// grouping that uses itself share their definitions, so having the definition of the base is not enough:
+// it has to be the base's place in the path, or - when the base is a list - an entry of that very list.
+func isBasePath(p *Path, base *Path) bool {
+	return p == base || (p.Meta == base.Meta && p.Parent == base.Parent)
 }
 
 func (md MaxDepth) CheckFieldPreConstraints(r *FieldRequest, hnd *ValueHandle) (bool, error) {
